@@ -584,7 +584,7 @@ macro_rules! impl_kind {
                     if self.v.element_drop().is_some() != std::mem::needs_drop::<T>() { bad(49, 0); }
                     // Debug output exists and does not touch the elements
                     let d1 = format!("{:?}", self.v);
-                    if d1.is_empty() { bad(47, 0); }
+                    if d1.is_empty() || !d1.contains(&format!("len: {}", n)) { bad(47, 0); }
                 });
             }
             fn views_t<F: Family, T: Elem>(&mut self) {
